@@ -18,6 +18,21 @@
                                              encode(decode(ids))
    res fields: "ok" | "raise:<exception class name>".
 
+   Second audit (input / history classes C-H), fields added:
+     enc / dec / legacy : layer = "P" | "M".  "M" marks an input OUTSIDE the statement's quantifier (a
+                          one-shot iterator or a numpy string array handed to encode, max_grid_size = 0):
+                          every clause of such a record is reported with the "M:" prefix.
+     enc / dec, legacy encs / decs : argmod = the call changed the caller's own argument object
+                          (M:argument_modified -- the statement speaks about the returned ids / tokens;
+                          the CONSEQUENCES are Layer P: the driver overwrites its argument in place
+                          before it reads the result, so a result that shares memory with the argument
+                          fails encode_wrong_id / decode_wrong_token).
+     legacy encs: sres, sids = encode(" ".join(toks)) ("skip" = not run);
+     legacy decs: jres, joined = decode(ids, joined_tokens=True) ("skip" = not run).
+     vocab / legacy     : vsize (vocab_size), ntok (n_tokens, legacy only), pad (padding_token_index);
+                          -1 = not observed.  Derived values, not named by the statement: Layer M.
+     kind = "cf0" {res, list}  corner_first_ndindex(0) (n = 0 is outside 1..50: Layer M, must be empty).
+
    Layer P (the statement): published layout position by position, no duplicates, map = inverse of
    list, codecs mutually inverse and TokenError on unknown token / id, corner-first order and its
    prefix property, legacy: duplicate-free, map inverse, row-major order, prefix in corner-first mode,
@@ -47,6 +62,13 @@ JoinRange(q, lo, hi) ==
   ELSE LET mid == (lo + hi) \div 2 IN JoinRange(q, lo, mid) \o " " \o JoinRange(q, mid + 1, hi)
 JoinSp(q) == IF Len(q) = 0 THEN "" ELSE JoinRange(q, 1, Len(q))
 
+\* names that already carry the Layer-M prefix
+MNames == {"M:argument_modified", "M:legacy_layout_differs", "M:vocab_size_differs", "M:padding_index_differs",
+           "M:legacy_vocab_size_differs", "M:legacy_padding_index_differs", "M:cf_zero_not_empty"}
+\* a record whose input lies outside the statement's quantifier: every clause becomes Layer M
+Relayer(r, cs) == IF r.layer = "M" THEN {IF c \in MNames THEN c ELSE "M:" \o c : c \in cs} ELSE cs
+PadOk(pad, L) == pad = -1 \/ (pad + 1 \in 1..Len(L) /\ L[pad + 1] = "<PADDING>")
+
 PosClauses(r) ==
   Flag(InV(r.pos) /\ TokAt(r.pos) = r.tok, "position_differs_from_published_layout")
   \cup Flag(r.idx = r.pos, "token_to_index_not_inverse")
@@ -56,6 +78,8 @@ VocabClauses(r) ==
   \cup Flag(Distinct(r.list), "vocab_duplicates")
   \cup Flag(r.list = SpecVocab, "vocab_differs_from_published_layout")
   \cup Flag(MapInverts(r.t2i, r.list), "token_to_index_not_inverse")
+  \cup Flag(r.vsize = -1 \/ r.vsize = Len(r.list), "M:vocab_size_differs")
+  \cup Flag(PadOk(r.pad, r.list), "M:padding_index_differs")
 
 CfClauses(r) ==
   IF r.res # "ok" THEN {"cf_raises"} ELSE
@@ -69,12 +93,17 @@ LegEnc(A, e) ==
   THEN Flag(Len(e.ids) = Len(e.toks) /\ \A k \in 1..Len(e.toks) : e.ids[k] + 1 \in 1..Len(A) /\ A[e.ids[k] + 1] = e.toks[k],
             "legacy_encode_wrong_id")
        \cup Flag(e.back_res = "ok" /\ e.back = e.toks, "legacy_decode_of_encode_not_identity")
+       \cup (IF e.sres = "skip" THEN {} ELSE Flag(e.sres = "ok" /\ e.sids = e.ids, "legacy_encode_of_joined_string_differs"))
+       \cup Flag(~e.argmod, "M:argument_modified")
   ELSE Flag(\E k \in 1..Len(e.toks) : e.toks[k] \notin SeqRange(A), "legacy_encode_rejects_own_token")
 LegDec(A, d) ==
   IF \A k \in 1..Len(d.ids) : d.ids[k] + 1 \in 1..Len(A)
   THEN IF d.res # "ok" THEN {"legacy_decode_rejects_own_id"}
        ELSE Flag(Len(d.toks) = Len(d.ids) /\ \A k \in 1..Len(d.ids) : d.toks[k] = A[d.ids[k] + 1], "legacy_decode_wrong_token")
             \cup Flag(d.back_res = "ok" /\ d.back = d.ids, "legacy_encode_of_decode_not_identity")
+            \cup (IF d.jres = "skip" THEN {}
+                  ELSE Flag(d.jres = "ok" /\ d.joined = JoinSp([k \in 1..Len(d.ids) |-> A[d.ids[k] + 1]]), "legacy_decode_joined_differs"))
+            \cup Flag(~d.argmod, "M:argument_modified")
   ELSE {}
 LegacyClauses(r) ==
   IF r.res # "ok" THEN {"legacy_vocabulary_raises"} ELSE
@@ -85,6 +114,8 @@ LegacyClauses(r) ==
         THEN Flag(SelectSeq(A, LAMBDA t : t \notin SpecialSet) = UTs(RowMajor(r.n)), "legacy_not_row_major")
         ELSE {})
   \cup Flag(r.mode \in Modes /\ A = LegacyVocab(r.mode, r.n), "M:legacy_layout_differs")
+  \cup Flag((r.vsize = -1 \/ r.vsize = Len(A)) /\ (r.ntok = -1 \/ r.ntok = Len(A)), "M:legacy_vocab_size_differs")
+  \cup Flag(PadOk(r.pad, A), "M:legacy_padding_index_differs")
   \cup UNION {LegEnc(A, r.encs[p]) : p \in 1..Len(r.encs)}
   \cup UNION {LegDec(A, r.decs[p]) : p \in 1..Len(r.decs)}
 
@@ -99,6 +130,7 @@ EncClauses(r) ==
   ELSE Flag(Len(r.ids) = Len(r.toks) /\ \A k \in 1..Len(r.toks) : InV(r.ids[k]) /\ TokAt(r.ids[k]) = r.toks[k], "encode_wrong_id")
        \cup Flag(r.back_res = "ok" /\ r.back = r.toks, "decode_of_encode_not_identity")
        \cup (IF r.sres = "skip" THEN {} ELSE Flag(r.sres = "ok" /\ r.sids = r.ids, "encode_of_joined_string_differs"))
+       \cup Flag(~r.argmod, "M:argument_modified")
 
 DecClauses(r) ==
   IF \A k \in 1..Len(r.ids) : InV(r.ids[k])
@@ -107,6 +139,7 @@ DecClauses(r) ==
             \cup Flag(r.back_res = "ok" /\ r.back = r.ids, "encode_of_decode_not_identity")
             \cup (IF r.jres = "skip" THEN {}
                   ELSE Flag(r.jres = "ok" /\ r.joined = JoinSp([k \in 1..Len(r.ids) |-> TokAt(r.ids[k])]), "decode_joined_differs"))
+            \cup Flag(~r.argmod, "M:argument_modified")
   ELSE IF r.res = "raise:TokenError" THEN {}
   ELSE IF \E k \in 1..Len(r.ids) : r.ids[k] >= VocabSize THEN {"too_large_id_no_token_error"}
   ELSE {"negative_id_no_token_error"}
@@ -115,10 +148,11 @@ Clauses(r) ==
   CASE r.kind = "pos"           -> PosClauses(r)
     [] r.kind = "vocab"         -> VocabClauses(r)
     [] r.kind = "cf"            -> CfClauses(r)
-    [] r.kind = "legacy"        -> LegacyClauses(r)
+    [] r.kind = "cf0"           -> IF r.res = "ok" /\ Len(r.list) = 0 THEN {} ELSE {"M:cf_zero_not_empty"}
+    [] r.kind = "legacy"        -> Relayer(r, LegacyClauses(r))
     [] r.kind = "legacy_prefix" -> LegacyPrefixClauses(r)
-    [] r.kind = "enc"           -> EncClauses(r)
-    [] r.kind = "dec"           -> DecClauses(r)
+    [] r.kind = "enc"           -> Relayer(r, EncClauses(r))
+    [] r.kind = "dec"           -> Relayer(r, DecClauses(r))
     [] OTHER                    -> {"unknown_record_kind"}
 
 VARIABLES l, bad
